@@ -19,7 +19,6 @@ var leftmostFirstSpanMethods = map[string]bool{"SearchAt": true, "Find": true, "
 var longestExempt = map[string]string{
 	"(*meta.Engine).findAdaptive":        adaptiveWhy,
 	"(*meta.Engine).findIndicesAdaptive": adaptiveWhy,
-	"(*meta.Engine).findIndicesBidirectionalDFALongest": "only reached from the UseBoundedBacktracker helpers when the input is too large; that strategy is selected for start-anchored patterns (answered by the PikeVM before this call) and for repetitions of a single character class, whose greedy match is the longest one",
 }
 
 const adaptiveWhy = "the FindMatch shortcut of the adaptive (UseBoth) helpers is unreachable: selectStrategy returns UseBoth only after the literal analysis found neither good nor Teddy literals (both lead to UseDFA/UseNFA/UseTeddy earlier), so e.prefilter is never a whole-match finder under this strategy; no pattern reaching it could be constructed"
